@@ -45,7 +45,7 @@ func TestC01Stress(t *testing.T) {
 		var fe frontend
 
 		if cfg.variant >= 3 {
-			fe = foOfAny{cache.NewFailoverOf[any](cache.FailoverConfigOf[any]{
+			fe = foOfAny{f: cache.NewFailoverOf[any](cache.FailoverConfigOf[any]{
 				Backend: be.Raw().(cache.ReadWriter), FailedUpdateTTL: cfg.failedUpdateTTL, UpdateTTL: cfg.updateTTL,
 				SyncUpdate: cfg.syncUpdate, SyncRead: cfg.syncRead, MaxStaleness: cfg.maxStaleness, FailHard: cfg.failHard,
 			}.Use)}
@@ -55,7 +55,7 @@ func TestC01Stress(t *testing.T) {
 				SyncUpdate: cfg.syncUpdate, SyncRead: cfg.syncRead, MaxStaleness: cfg.maxStaleness, FailHard: cfg.failHard,
 			}.Use)}
 		} else {
-			fe = foPlain{cache.NewFailover(cache.FailoverConfig{
+			fe = foPlain{f: cache.NewFailover(cache.FailoverConfig{
 				Backend: be.Raw().(cache.ReadWriter), FailedUpdateTTL: cfg.failedUpdateTTL, UpdateTTL: cfg.updateTTL,
 				SyncUpdate: cfg.syncUpdate, SyncRead: cfg.syncRead, MaxStaleness: cfg.maxStaleness, FailHard: cfg.failHard,
 			}.Use)}
